@@ -519,6 +519,43 @@ func (e *cryptoEnum) run() {
 			}
 		}
 	}
+	// model-directed parameters (ZUC): the one data-dependent branch of the LFSR — a feedback sum that is a multiple of
+	// 2^31-1 and is stored as 2^31-1, never as 0 — has probability 2^-31 per clock, so no alphabet of keys reaches it.
+	// The reference model is inverted instead: for initialisation rounds 1 and 2 the sum is linear in a cell that no
+	// earlier round reads (key octet r-1, COUNT octet r-1), so parameter tuples that take the branch are computed, checked
+	// on the model (ZucInitZeroRounds) and then run like every other case.
+	// Rounds 3 and 4 (thorough): the COUNT octet of the free cell is mirrored into a cell that round 1 reads, so only the
+	// key octet is free and one try in 2^23 succeeds; two tuples each.
+	zr := 2
+	if thorough {
+		zr = 4
+	}
+	for r := 1; r <= zr; r++ {
+		if !e.mine() {
+			continue
+		}
+		if !e.c.Begin("zuc-directed", "alg3", map[string]int{"initialisation_round": r}) {
+			continue
+		}
+		want, maxTries := 12, int64(1)<<22
+		if r > 2 {
+			want, maxTries = 2, int64(1)<<27
+		}
+		sols, tries := zucDirected(e.mac, r, want, maxTries, e.c.Tick)
+		e.c.Add("zuc_zero_feedback_parameter_tuples", int64(len(sols)))
+		e.c.Add("zuc_zero_feedback_search_tries", tries)
+		if len(sols) < want {
+			e.c.Cap(fmt.Sprintf("ZUC model inversion for initialisation round %d: %d of %d parameter tuples found in %d tries", r, len(sols), want, tries))
+		}
+		for _, s := range sols {
+			for _, bits := range []int{1, 8, 31, 32, 33, 64, 128, 129, 256, 320} {
+				for _, via := range vias {
+					e.one(3, via, s.key, s.count, s.bearer, s.dir, bits, 2)
+				}
+			}
+		}
+		e.c.Tick()
+	}
 	// history family: the functions must be pure — the same key/COUNT/bearer/direction used repeatedly with
 	// ascending, descending and repeated lengths (a keystream cache or other state carried between calls shows here)
 	for alg := 1; alg <= 3; alg++ {
@@ -594,4 +631,59 @@ func init() {
 		},
 		Finish: finishDistinct("distinct by the complete parameter tuple (algorithm, entry point, key, COUNT, bearer, direction, bit length, payload); non-trivial = at least one payload bit"),
 	})
+}
+
+type zucTuple struct {
+	key    [16]byte
+	count  uint32
+	bearer uint8
+	dir    uint8
+}
+
+// zucDirected walks a fixed sequence of parameter tuples (xorshift from a constant) and keeps those for which the
+// model inversion for initialisation round r has a solution; every kept tuple is re-checked on the model.
+func zucDirected(mac bool, r, want int, maxTries int64, tick func()) (out []zucTuple, tries int64) {
+	x := uint64(0x9E3779B97F4A7C15) + uint64(r)*0x100 + 1
+	if mac {
+		x ^= 0xA5A5A5A5
+	}
+	next := func() uint64 {
+		x ^= x << 13
+		x ^= x >> 7
+		x ^= x << 17
+		return x
+	}
+	ivOf := refcrypto.EEA3IV
+	if mac {
+		ivOf = refcrypto.EIA3IV
+	}
+	for tries < maxTries && len(out) < want {
+		tries++
+		if tries&(1<<20-1) == 0 && tick != nil {
+			tick()
+		}
+		var t zucTuple
+		a, b, c := next(), next(), next()
+		binary.BigEndian.PutUint64(t.key[:8], a)
+		binary.BigEndian.PutUint64(t.key[8:], b)
+		t.count = uint32(c)
+		t.bearer = uint8(c>>32) & 31
+		t.dir = uint8(c>>40) & 1
+		iv := ivOf(t.count, t.bearer, t.dir)
+		kb, ivb, ok := refcrypto.ZucSolveInitZero(t.key[:], iv, r)
+		if !ok || r > 2 && ivb != iv[r-1] {
+			continue
+		}
+		t.key[r-1] = kb
+		sh := uint(8 * (4 - r))
+		t.count = t.count&^(0xFF<<sh) | uint32(ivb)<<sh
+		hit := false
+		for _, rr := range refcrypto.ZucInitZeroRounds(t.key[:], ivOf(t.count, t.bearer, t.dir)) {
+			hit = hit || rr == r
+		}
+		if hit {
+			out = append(out, t)
+		}
+	}
+	return out, tries
 }
